@@ -62,7 +62,7 @@ func main() {
 		configs = append(configs,
 			core.Config{Name: "tags=gofuzz", Dir: *repo, Tags: "gofuzz"},
 			core.Config{Name: "GOARCH=386", Dir: *repo, GOARCH: "386"},
-			core.Config{Name: "tests", Dir: *repo, Tests: true},
+			core.Config{Name: "GOOS=windows", Dir: *repo, GOOS: "windows"},
 		)
 	}
 	if *overlayFile != "" {
